@@ -96,6 +96,30 @@ pub fn diag_program() -> (Vec<u8>, HashMap<String, u16>) {
     a.finish()
 }
 
+/// Draws behind the beam: once per frame (IM 1, HALT), after a delay that lets the beam pass the top of the
+/// picture, a bitmap byte and an attribute byte of the first character row are changed; after a second
+/// delay a byte of the middle third. Breakpoints right after the writes.
+pub fn beam_program() -> (Vec<u8>, HashMap<String, u16>) {
+    let mut a = Asm::new(0x8000);
+    a.db(&[0x31, 0x00, 0xBD, 0xFD, 0x21, 0x3A, 0x5C, 0xED, 0x56, 0xFB]);
+    a.label("loop");
+    a.db(&[0x76]);
+    a.db(&[0x01, 0xE8, 0x03]); // LD BC,1000: 26 T per pass
+    a.label("d1");
+    a.db(&[0x0B, 0x78, 0xB1, 0x20, 0xFB]);
+    a.db(&[0x21, 0x00, 0x40, 0x34, 0x21, 0x00, 0x58, 0x34]);
+    a.label("bp1");
+    a.db(&[0x00]);
+    a.db(&[0x01, 0x20, 0x03]); // LD BC,800
+    a.label("d2");
+    a.db(&[0x0B, 0x78, 0xB1, 0x20, 0xFB]);
+    a.db(&[0x21, 0x10, 0x48, 0x34]);
+    a.label("bp2");
+    a.db(&[0x00]);
+    a.op16(&[0xC3], "loop");
+    a.finish()
+}
+
 /// Calls the ROM's LD-BYTES (0x0556) for one or two blocks, stores the resulting AF, then EI/HALT loop.
 pub fn tape_program(len1: u16, len2: Option<u16>) -> (Vec<u8>, HashMap<String, u16>) {
     let mut a = Asm::new(0x8000);
@@ -288,6 +312,20 @@ pub fn scenarios() -> Vec<Scenario> {
         bp_addrs: bps,
         weight: 52,
     });
+    let (bcode, bl) = beam_program();
+    for m128 in [false, true] {
+        v.push(Scenario {
+            name: if m128 { "beam128" } else { "beam48" },
+            m128,
+            frames: (10, 60),
+            sna: Some(if m128 { sna128(&bcode, 0x8000, 0x8000, 0xBD00, 0x5C3A, 21) } else { sna48(&bcode, 0x8000, 0x8000, 0xBD00, 0x5C3A, 21) }),
+            tap: None,
+            fastload: false,
+            events: vec![(4, HostEv::Key(4, true)), (6, HostEv::Key(4, false))],
+            bp_addrs: vec![bl["bp1"], bl["bp2"], bl["d2"], bl["loop"]],
+            weight: 40,
+        });
+    }
     // tape: fast load of two blocks (the second longer than the 128-byte tape buffer)
     let mut r = crate::util::Rng::new(4242);
     let d1 = r.bytes(40);
